@@ -10,20 +10,22 @@ package centrifuge
 // One scenario per op line, one output line per scenario:
 //
 //   sc sched=0|1 ping=MS pong=MS stale=MS ecd=MS escd=MS pres=MS csr=0|1 rh=0|1 srh=0|1
-//      rhr=v,v,… srhr=v,v,… ev=T:kind[:arg…];… end=MS
+//      rhr=v,v,… srhr=v,v,… pp=d,d,-,… ppd=d|- ev=T:kind[:arg…];… end=MS
 //
 // ping/pong: transport PingPongConfig in ms (-1 disabled).  stale/ecd/escd/pres: ClientStaleCloseDelay,
 // ClientExpiredCloseDelay, ClientExpiredSubCloseDelay, ClientPresenceUpdateInterval in ms (stale=-1: off).
 // csr: ConnectReply.ClientSideRefresh.  rh / srh: a RefreshHandler / SubRefreshHandler is registered.
 // rhr / srhr: scripted answers of the server-side (timer driven) refresh / sub refresh handler calls:
 // N (ExpireAt = now+N s; 0 = ExpireAt 0), x (Expired), e (error).  When exhausted: x.
+// pp / ppd: pong policy — the k-th ping frame the transport sees is answered by a pong command pp[k] ms later
+// ("-": withheld); pings beyond the list use ppd.  Every pong command sent is recorded as `pin`.
 // Events (T = ms since the scenario's second-aligned base time, non-decreasing):
 //   new                      NewClient
 //   connect:EXP              connect command; credentials ExpireAt = now+EXP s (0: none)
 //   pong                     empty command (pong)
 //   refresh:V                client refresh command, handler answers ExpireAt = now+V s | 0 | x
 //   srefresh:V               Client.Refresh(WithRefreshExpireAt(now+V)) | ExpireAt 0 | x = WithRefreshExpired
-//   sub:CH:V:CSR             subscribe command; Options.ExpireAt = now+V s (0: none), ClientSideRefresh=CSR
+//   sub:CH:V:CSR             subscribe command (CH a small number); Options.ExpireAt = now+V s (0: none), ClientSideRefresh=CSR
 //   subrefresh:CH:V          client sub refresh command, handler answers ExpireAt = now+V s | 0 | x
 // Before an event at time T all timers due at ≤ T have run (sleep, then synctest.Wait).
 // Output: `jp=NS jr=NS tl=NS:event,… st=…` — jp/jr are the first-ping / first-presence jitters the
@@ -100,6 +102,7 @@ func verifC36B(b bool) int {
 type verifC36Transport struct {
 	rec        *verifC36Rec
 	ping, pong time.Duration
+	onPing     func()
 }
 
 func (t *verifC36Transport) Name() string                     { return "verif" }
@@ -119,6 +122,9 @@ func (t *verifC36Transport) frame(l string) {
 	}
 	if l == "{}" {
 		t.rec.add("ping")
+		if t.onPing != nil {
+			t.onPing()
+		}
 		return
 	}
 	var x verifC36Frame
@@ -128,7 +134,7 @@ func (t *verifC36Transport) frame(l string) {
 	}
 	switch {
 	case x.Error != nil:
-		t.rec.add(fmt.Sprintf("err:%d:%d", x.ID, x.Error.Code))
+		t.rec.add(fmt.Sprintf("err:%d", x.Error.Code))
 	case x.Connect != nil:
 		t.rec.add(fmt.Sprintf("connected:%d:%d", verifC36B(x.Connect.Expires), x.Connect.TTL))
 	case x.Subscribe != nil:
@@ -402,9 +408,47 @@ func verifC36Scenario(line string) (res string) {
 				arm = "many"
 			}
 		}
-		return fmt.Sprintf("%d/%d/%s/%s/%s/%s/%s/%s/%s", st, top, rel(ne), rel(npr), rel(npi), rel(npo), e, arm, strings.Join(subs, "+"))
+		if st == statusClosed {
+			return "closed"
+		}
+		tops := strconv.Itoa(int(top))
+		if st == statusConnecting {
+			tops = "-"
+		}
+		return fmt.Sprintf("%d/%s/%s/%s/%s/%s/%s/%s/%s", st, tops, rel(ne), rel(npr), rel(npi), rel(npo), e, arm, strings.Join(subs, "+"))
 	}
 
+	// pong policy: the k-th ping is answered after pp[k] ms ("-" = withheld); beyond the list: ppd
+	var pp []string
+	if kv["pp"] != "" && kv["pp"] != "-" {
+		pp = strings.Split(kv["pp"], ",")
+	}
+	ppd := kv["ppd"]
+	var pingMu sync.Mutex
+	nping := 0
+	tr.onPing = func() {
+		pingMu.Lock()
+		k := nping
+		nping++
+		pingMu.Unlock()
+		v := ppd
+		if k < len(pp) {
+			v = pp[k]
+		}
+		if v == "" || v == "-" {
+			return
+		}
+		ms, err := strconv.ParseInt(v, 10, 64)
+		if err != nil {
+			return
+		}
+		time.AfterFunc(time.Duration(ms)*time.Millisecond, func() {
+			rec.add("pin")
+			if client != nil {
+				client.HandleCommand(&protocol.Command{}, 0)
+			}
+		})
+	}
 	jp, jr := int64(-1), int64(-1)
 	cmdID := uint32(0)
 	evs := []string{}
@@ -470,6 +514,7 @@ func verifC36Scenario(line string) (res string) {
 			if client == nil {
 				return "bad-op"
 			}
+			rec.add("pin")
 			client.HandleCommand(&protocol.Command{}, 0)
 		case "refresh":
 			if client == nil {
